@@ -157,7 +157,8 @@ def check(prop, tier, seed):
     canaries = [r for r in results if r["kind"] == "canary"]
     broken = []
     bounded_only = bool(getattr(cset.pymod, "BOUNDED_ONLY", False)) and not cset.functions and not cset.lemmas
-    if not obligations and not bounded_only:
+    if not obligations and not bounded_only and not not_extracted:
+        # (a function that no longer has its contracted shape is "not extracted": its bounded stand-in decides, that is not vacuity)
         broken.append("zero obligations generated")
     for r in covers:
         if r["status"] == "vacuous":
